@@ -263,6 +263,10 @@ example : KernelLen exKernel := fun _ _ => by simp [exKernel]
 example : louvainFit argsortStable exKernel (-1) 5 5 [4, 2, 0, 3, 1] true true false 5
     = .ok (some (⟨[0, 0, 0, 0, 1], none, none⟩, 2)) := by decide
 
+-- a multi-level run of the kind the total theorems cover: 9 nodes, fuel = 9, three levels
+example : (louvainFit argsortStable exKernel (-1) 9 9 [] true false false 9).map (Option.map (·.2)) = .ok (some 3) := by
+  decide
+
 def exLeidenKernel : Nat → List Nat → List Int × Bool :=
   fun count labels => (labels.map fun x => ((x / 2 : Nat) : Int) + 10, decide (2 ≤ count))
 def exRefine : Nat → List Nat → List Int := fun _ labels => labels.map Int.ofNat
@@ -355,7 +359,7 @@ theorem secondary_outputs_valid {a : SpMat} {nCol N : Nat} {L : List Nat} {sorte
 
 /-- ★★ the statement of C05 for Louvain, end to end on the model: whatever the kernel returns (one label per
     node), whatever sorting permutation `argsort` returns, for every shuffling permutation, every option and every
-    input with non-negative weights: `fit` does not raise, `labels_` is a valid clustering (sorted by size iff
+    input with non-negative weights: `fit` does not raise, `labels_` is a valid clustering (sorted by size when
     `sort_clusters`) and the secondary outputs are consistent with it. -/
 theorem louvain_outputs_valid {argsort : List Int → List Nat} (hs : ∀ key, IsArgsort key (argsort key))
     {kernel : Nat → Nat → List Int × Bool} (hk : KernelLen kernel) (nAgg : Int) (fuel : Nat) {N : Nat}
@@ -377,28 +381,28 @@ theorem louvain_outputs_valid {argsort : List Int → List Nat} (hs : ∀ key, I
     rw [← hsplit] at hs1 hs2
     exact Or.inr ⟨f, c, s, h, hv, hs1, hs2⟩
 
-/-- ★★ the same for Leiden -/
+/-- ★★ the same for Leiden, in total form (no fuel disjunct): since the repair b2c73765 a continuing round strictly
+    shrinks the graph, so with as many rounds as nodes the fit returns (`LeidenContract` is the only assumption on
+    the kernels) -/
 theorem leiden_outputs_valid {argsort : List Int → List Nat} (hs : ∀ key, IsArgsort key (argsort key))
     {kernel : Nat → List Nat → List Int × Bool} {refine : Nat → List Nat → List Int}
-    (hk : LeidenContract kernel refine) (nAgg : Int) (fuel : Nat) {N : Nat}
+    (hk : LeidenContract kernel refine) (nAgg : Int) {fuel N : Nat} (hf : N ≤ fuel)
     (sortClusters shuffle bipartite : Bool) (nRow : Nat) {index : List Nat}
     (hidx : shuffle = true → index.Perm (List.range N))
     {a : SpMat} {nCol : Nat}
     (hshape : if bipartite then a.length = nRow ∧ N = nRow + nCol ∧ 0 < nRow ∧ 0 < nCol
               else a.length = N ∧ nCol = N ∧ 0 < N)
     (hcols : ∀ row ∈ a, ∀ e ∈ row, e.1 < nCol) (hw : ∀ row ∈ a, ∀ e ∈ row, 0 ≤ e.2) (rp ra : Bool) :
-    leidenFit argsort kernel refine nAgg fuel N index sortClusters shuffle bipartite nRow = .ok none ∨
     ∃ f count s, leidenFit argsort kernel refine nAgg fuel N index sortClusters shuffle bipartite nRow
         = .ok (some (f, count)) ∧
       ValidClustering N (allLabels f) sortClusters ∧
       secondary a nCol f bipartite rp ra = .ok s ∧ SecondaryOK a nCol f bipartite rp ra s := by
   have hN : 0 < N := by
     cases bipartite <;> simp at hshape <;> omega
-  rcases leidenFit_spec hs hk nAgg fuel hN sortClusters shuffle bipartite nRow hidx with h | ⟨f, c, h, hv, hsplit⟩
-  · exact Or.inl h
-  · obtain ⟨s, hs1, hs2⟩ := secondary_of_valid bipartite nRow hv hshape hcols hw rp ra
-    rw [← hsplit] at hs1 hs2
-    exact Or.inr ⟨f, c, s, h, hv, hs1, hs2⟩
+  obtain ⟨f, c, h, hv, hsplit⟩ := leidenFit_total hs hk nAgg hN hf sortClusters shuffle bipartite nRow hidx
+  obtain ⟨s, hs1, hs2⟩ := secondary_of_valid bipartite nRow hv hshape hcols hw rp ra
+  rw [← hsplit] at hs1 hs2
+  exact ⟨f, c, s, h, hv, hs1, hs2⟩
 
 /-- ★★ and for PropagationClustering: for any labels left by the sweeps (one per node of the block adjacency) -/
 theorem propagation_outputs_valid {argsort : List Int → List Nat} (hs : ∀ key, IsArgsort key (argsort key))
@@ -466,7 +470,8 @@ theorem split_vars_shape (bip : Bool) (nRow nCol : Nat) (L : List Nat)
     obtain ⟨c', hc1, hc2⟩ := this.2.2
     exact ⟨c', hc1, by omega⟩
 
-/-- an input without stored entry is refused by all estimators (ValueError of `check_format`), and an unknown
+/-- an input without stored entry is refused by Louvain and PropagationClustering (ValueError of `check_format`;
+    Leiden: `estimators_refuse_more`; KCenters: `kcenters_estimator_valid`), and an unknown
     `modularity` by Louvain / Leiden -/
 theorem estimators_refuse (argsort : List Int → List Nat) (kernel : Nat → Nat → List Int × Bool)
     (sweeps : Nat → List Int) (nAgg : Int) (fuel nRow nCol nnz : Nat) (fb mk : Bool) (index : List Nat) (so sh : Bool) :
@@ -564,6 +569,52 @@ theorem louvain_on_matrix_total {argsort : List Int → List Nat} (hs : ∀ key,
   rw [← hsplit] at hs1 hs2
   exact ⟨f, c, s, h, hv, hs1, hs2⟩
 
+/-- ★★ `Leiden.fit` on the input matrix itself, total form: non-negative weights with positive total, a known
+    modularity, `LeidenContract`, any sorting `argsort`, any shuffle, any tolerance and `n_aggregations`: the fit is not
+    refused, returns, and the labels are a valid clustering with consistent secondary outputs. -/
+theorem leiden_on_matrix_total {argsort : List Int → List Nat} (hs : ∀ key, IsArgsort key (argsort key))
+    {kernel : Nat → List Nat → List Int × Bool} {refine : Nat → List Nat → List Int}
+    (hk : LeidenContract kernel refine) (nAgg : Int)
+    {a : SpMat} {nCol : Nat} (forceBipartite : Bool) {modularity : String} {kind : ModKind}
+    (hkind : modKind? modularity = some kind)
+    (hr : 0 < a.length) (hcols : ∀ row ∈ a, ∀ e ∈ row, e.1 < nCol) (hw : ∀ row ∈ a, ∀ e ∈ row, 0 ≤ e.2)
+    (hpos : 0 < totalWeight a) (hnnz : 0 < nnzOf a) (hc : 0 < nCol)
+    (sortClusters shuffle : Bool) {index : List Nat}
+    (hidx : shuffle = true → index.Perm
+      (List.range (if (forceBipartite || a.length != nCol) = true then a.length + nCol else a.length)))
+    (rp ra : Bool) :
+    let bip := forceBipartite || a.length != nCol
+    let N := if bip = true then a.length + nCol else a.length
+    ∃ f count s, leidenOnMatrix argsort kernel refine nAgg N a nCol forceBipartite modularity index sortClusters
+        shuffle = .ok (some (f, count)) ∧
+      ValidClustering N (allLabels f) sortClusters ∧
+      secondary a nCol f bip rp ra = .ok s ∧ SecondaryOK a nCol f bip rp ra s := by
+  intro bip N
+  have hz : (nnzOf a == 0) = false := by simp; omega
+  have hN : 0 < N := by simp only [N]; split <;> omega
+  have hpre : preProcessingOK a nCol bip modularity = true := by
+    simp only [preProcessingOK, hkind]
+    exact preWeightsOK_of_nonneg a nCol bip kind hcols hw hpos
+  have heq : leidenOnMatrix argsort kernel refine nAgg N a nCol forceBipartite modularity index sortClusters shuffle
+      = leidenFit argsort kernel refine nAgg N N index sortClusters shuffle bip a.length := by
+    simp only [leidenOnMatrix, leidenEstimator, routeInput, hz]
+    simp [bip, N, hpre]
+  rw [heq]
+  obtain ⟨f, c, h, hv, hsplit⟩ :=
+    leidenFit_total hs hk nAgg hN (Nat.le_refl N) sortClusters shuffle bip a.length hidx
+  have hshape : if bip = true then a.length = a.length ∧ N = a.length + nCol ∧ 0 < a.length ∧ 0 < nCol
+      else a.length = N ∧ nCol = N ∧ 0 < N := by
+    cases hb : bip with
+    | true => simp [N, hb, hr, hc]
+    | false =>
+      have hsq : a.length = nCol := by
+        simp only [bip, Bool.or_eq_false_iff] at hb
+        simpa using hb.2
+      simp [N, hb, hr, hsq.symm]
+  obtain ⟨s, hs1, hs2⟩ := secondary_of_valid bip a.length hv hshape hcols hw rp ra
+  rw [← hsplit] at hs1 hs2
+  exact ⟨f, c, s, h, hv, hs1, hs2⟩
+
 /-- ★★ `Louvain.fit` from the shape of the input (`n_row × n_col`, at least one stored entry, `_pre_processing` not
     refusing — fifth argument `true`, see `louvainOnMatrix` / `pre_processing_accepts_nonneg`):
     the graph is treated as bipartite iff forced or not square; the fit does not raise; `labels_` — together with
@@ -601,18 +652,17 @@ theorem louvain_estimator_valid {argsort : List Int → List Nat} (hs : ∀ key,
 example : louvainEstimator argsortStable exKernel (-1) 6 2 3 4 false true [4, 2, 0, 3, 1] true true
     = .ok (some (⟨[0, 0], some [0, 0], some [0, 0, 1]⟩, 2)) := by decide
 
-/-- ★★ `Leiden.fit` from the shape of the input -/
+/-- ★★ `Leiden.fit` from the shape of the input, total form (as many rounds as nodes of the adjacency suffice) -/
 theorem leiden_estimator_valid {argsort : List Int → List Nat} (hs : ∀ key, IsArgsort key (argsort key))
     {kernel : Nat → List Nat → List Int × Bool} {refine : Nat → List Nat → List Int}
-    (hk : LeidenContract kernel refine) (nAgg : Int) (fuel : Nat)
+    (hk : LeidenContract kernel refine) (nAgg : Int) {fuel : Nat}
     {nRow nCol nnz : Nat} (hr : 0 < nRow) (hnnz : 0 < nnz) (forceBipartite : Bool)
+    (hf : (if (forceBipartite || nRow != nCol) = true then nRow + nCol else nRow) ≤ fuel)
     (sortClusters shuffle : Bool) {index : List Nat}
     (hidx : shuffle = true → index.Perm
       (List.range (if (forceBipartite || nRow != nCol) = true then nRow + nCol else nRow))) :
     let bip := forceBipartite || nRow != nCol
     let N := if bip = true then nRow + nCol else nRow
-    leidenEstimator argsort kernel refine nAgg fuel nRow nCol nnz forceBipartite true index sortClusters shuffle
-      = .ok none ∨
     ∃ f count, leidenEstimator argsort kernel refine nAgg fuel nRow nCol nnz forceBipartite true index sortClusters
         shuffle = .ok (some (f, count)) ∧
       ValidClustering N (allLabels f) sortClusters ∧
@@ -626,12 +676,11 @@ theorem leiden_estimator_valid {argsort : List Int → List Nat} (hs : ∀ key, 
       shuffle = leidenFit argsort kernel refine nAgg fuel N index sortClusters shuffle bip nRow := by
     simp [leidenEstimator, routeInput, hz, bip, N]
   rw [heq]
-  rcases leidenFit_spec hs hk nAgg fuel hN sortClusters shuffle bip nRow hidx with h | ⟨f, c, h, hv, hsplit⟩
-  · exact Or.inl h
-  · refine Or.inr ⟨f, c, h, hv, ?_⟩
-    have hlen : (allLabels f).length = N := hv.1
-    rw [hsplit]
-    exact split_vars_shape bip nRow nCol (allLabels f) hlen
+  obtain ⟨f, c, h, hv, hsplit⟩ := leidenFit_total hs hk nAgg hN hf sortClusters shuffle bip nRow hidx
+  refine ⟨f, c, h, hv, ?_⟩
+  have hlen : (allLabels f).length = N := hv.1
+  rw [hsplit]
+  exact split_vars_shape bip nRow nCol (allLabels f) hlen
 
 /-- `_aggregate_refine`: the labels handed to the next round of Leiden
     (`membership_refined.T.dot(membership).indices`) have one entry per refined cluster — the coarse label of its
@@ -722,7 +771,9 @@ theorem kcenters_fit_given_assignment {nClusters nInit maxIter : Int} {bipartite
     KCentersOK bipartite nRow nCol pos nClusters.toNat (allLabelsK k) k.centers ∧
     (bipartite = true → CentersSplitOK nRow pos k.centers k.centersRow k.centersCol) ∧
     1 ≤ maxIter ∧ calls = nInit.toNat :=
-  kcentersFitFull_spec h hch hcl
+  kcentersFitFull_spec h hch (fun mask hchk _ i _ => by
+    have hic := initCenters_spec (hch i) (kcentersChecks_ok hchk).2.2.2
+    exact hcl i _ hic.1 hic.2.1)
 
 /-- ★ the read-out of `PageRankClassifier` (`labels_unique[np.argmax(scores, axis=1)]` with the classes of the seeds
     `{center: label}`): one label per row of the score matrix, every label below the number of centres — whatever the
@@ -762,6 +813,35 @@ theorem kcenters_estimator_valid {nClusters nInit maxIter : Int} {directed force
     ((forceBipartite || nRow != nCol) = true → CentersSplitOK nRow pos k.centers k.centersRow k.centersCol) ∧
     1 ≤ maxIter ∧ calls = nInit.toNat ∧ 0 < nnz ∧ (directed = true → nRow = nCol) :=
   kcentersEstimator_spec h hch hshape
+
+/-- ★★ total form for k-centers: accepted arguments are accepted.  At least two clusters, at least one restart,
+    `max_iter ≥ 1`, `directed` only on a square input, a stored entry, a known `center_position` offering at least
+    `n_clusters` admissible nodes (`kcenters_admissible_count` gives their number), an in-range index of the best
+    restart (what `np.argmax` returns), any random choices, any score matrices whose rows are no wider than the number
+    of centres: `KCenters.fit` *returns*, with one assignment per restart; `kcenters_estimator_valid` then says what. -/
+theorem kcenters_estimator_total {nClusters nInit maxIter : Int} {directed forceBipartite : Bool}
+    {nRow nCol nnz : Nat} {pos : CenterPos} {chooseOf : Nat → Nat → List Nat → Nat}
+    {scores : Nat → List Nat → List (List Rat)} {idxMax : Nat} {mask : List Bool}
+    (hnc : 2 ≤ nClusters) (hni : 1 ≤ nInit) (hm : 1 ≤ maxIter) (hdir : directed = true → nRow = nCol)
+    (hnnz : 0 < nnz)
+    (hmask : maskCenters (forceBipartite || nRow != nCol) nRow nCol pos = .ok mask)
+    (hcount : nClusters ≤ ((mask.filter id).length : Int))
+    (hidx : idxMax < nInit.toNat) (hch : ∀ i, ChoiceOK (chooseOf i))
+    (hwidth : ∀ i centers, ∀ row ∈ scores i centers, row.length ≤ centers.length) :
+    ∃ k, kcentersEstimator nClusters nInit maxIter directed forceBipartite nRow nCol nnz pos chooseOf scores idxMax
+      = .ok (k, nInit.toNat) :=
+  kcentersEstimator_total hnc hni hm hdir hnnz hmask hcount hidx hch hwidth
+
+/-- the number of admissible centres: `n_row` (not bipartite, or `row`), `n_col` (`col`), `n_row + n_col` (`both`) -/
+theorem kcenters_admissible_count {bipartite : Bool} {nRow nCol : Nat} {pos : CenterPos} {mask : List Bool}
+    (h : maskCenters bipartite nRow nCol pos = .ok mask) :
+    (mask.filter id).length =
+      (if bipartite then (match pos with | .row => nRow | .col => nCol | _ => nRow + nCol) else nRow) :=
+  maskCenters_count h
+
+-- a score row wider than the classes is numpy's IndexError, not a default label
+example : rankReadout [3, 5] [[0, 0, 5], [1, 0]] = .error .indexError := by decide +kernel
+example : maskCenters true 2 3 .col = .ok [false, false, true, true, true] := by decide
 
 -- non-vacuity: scores of 3 nodes for 2 centres (a tie on the last row goes to the first maximum), and the refusals
 example : kcentersEstimator 2 1 20 false false 3 3 4 .row (fun _ t c => c.getD t 0)
